@@ -186,7 +186,20 @@ def run(item):
         V('declared-lists-changed', 'states/controls/variables', 'declared lists changed by transcription: %s -> %s' % (declared_before, declared_after))
     else:
         ch.proved.append('declared lists unchanged')
-    r = result(E_, ch, {'violations': viol, 'shape': 'history %s %s' % (hist, cfg.method),
+    twins_ok = twins_bad = 0
+    if item.get('twin', True) and any(o in ('ST', 'AO', 'T', 'T0') for o in hist) and 'M' not in hist and 'CC' not in hist:
+        # vacuity guard: against a fresh OCP with the ORIGINAL specification the comparison must fail
+        with quiet():
+            b0 = declare(item['spec'], item['cfg'])
+            b0.ocp.solver('ipopt', dict(opts0))
+        ch2 = Checker(E_, timeout_ms=5000)
+        F0 = Inst(item['spec'], item['cfg'], seed=item.get('seed', 0), built=b0, solver=False, like=E_, bind=bind_positional())
+        d0, _ = compare_nlps(ch2, E_, F0, 'evolved', 'original')
+        if d0:
+            twins_ok += 1
+        else:
+            twins_bad += 1
+    r = result(E_, ch, {'violations': viol, 'twins_ok': twins_ok, 'twins_bad': twins_bad, 'shape': 'history %s %s' % (hist, cfg.method),
                         'sample': {'history': hist, 'base': item['cfg'].tag(), 'outcome': 'compared', 'rows': E_.nlp.ng, 'pairs': npairs}})
     if viol:
         r['status'] = 'violation'
